@@ -37,7 +37,7 @@ Proof.
       rewrite He1. reflexivity.
     + cbn [enc_param]. unfold is_required. cbn [pkind_of]. fold (fname x). rewrite Hl. cbn [negb orb guard bind].
       unfold vget. rewrite Hl. rewrite (not_none_of_instance _ _ Hpt). cbn [negb guard bind opt_or0].
-      cbn [enc_dop]. cbn [valid_phys]. rewrite Hpt. cbn [guard bind p2i enc_dct std_apply_mask std_used_mask].
+      cbn [enc_dop]. cbn [valid_phys]. rewrite Hpt. cbn [guard bind p2i valid_int dct_bt]. rewrite Hbt. cbn [guard bind enc_dct std_apply_mask std_used_mask].
       rewrite He1. rewrite ?(not_none_of_instance _ _ Hpt). reflexivity.
   - destruct Hend1 as (A & B & C & D).
     repeat split; cbn [set_bit e_bit e_cur e_msg e_used e_warn e_origin]; auto.
